@@ -122,6 +122,30 @@ def mode_exhaustive(ctx, rep, clause):
     cgf = Canon(gf.node)
     txt = ' '.join(cgf.text(s) for s in gf.node.body)
     ok = 'zip(*sorted(zip(mz_spectra, intensity_spectra), key=lambda arg0: arg0[0]))' in txt
+    if not ok:
+        # the same sort written on copies of the two parameters
+        def origin(e):
+            seen = set()
+            while isinstance(e, ast.Name) and e.id not in ('mz_spectra', 'intensity_spectra') and e.id not in seen:
+                seen.add(e.id)
+                firsts = [a for a in walk_own(gf.node) if isinstance(a, ast.Assign) and isinstance(a.targets[0], ast.Name)
+                          and a.targets[0].id == e.id]
+                if not firsts:
+                    break
+                e = min(firsts, key=lambda a: a.order).value
+            return e.id if isinstance(e, ast.Name) else None
+        for n in walk_own(gf.node):
+            if isinstance(n, ast.Call) and norm_stmt(n.func) == 'zip' and len(n.args) == 1 and \
+                    isinstance(n.args[0], ast.Starred) and isinstance(n.args[0].value, ast.Call) and \
+                    norm_stmt(n.args[0].value.func) == 'sorted' and n.args[0].value.args:
+                srt = n.args[0].value
+                inner = srt.args[0]
+                key = next((kw.value for kw in srt.keywords if kw.arg == 'key'), None)
+                by_first = key is None or (isinstance(key, ast.Lambda) and isinstance(key.body, ast.Subscript) and
+                                           isinstance(key.body.slice, ast.Constant) and key.body.slice.value == 0)
+                if isinstance(inner, ast.Call) and norm_stmt(inner.func) == 'zip' and len(inner.args) == 2 and by_first and \
+                        [origin(a) for a in inner.args] == ['mz_spectra', 'intensity_spectra']:
+                    ok = True
     ob(rep, 'SIB-order', gf.fq, 'peaks and intensities are sorted together by m/z', ok,
        'one sort over (mz, intensity) pairs', 'peaks are no longer sorted together with their intensities: matched '
        'intensities would belong to other peaks', gf.loc(), clause)
